@@ -16,29 +16,29 @@ theorem parse_accepts_iff (b s : Bytes) :
     (∃ p, parse b s = .ok p) ↔
       20 ≤ b.length ∧ 20 ≤ lengthField b ∧ lengthField b ≤ 4096 ∧ lengthField b ≤ b.length ∧
       WellFormedTLV ((b.take (lengthField b)).drop 20) := by
-  sorry
+  exact parse_accepts_iff_wf b s
 
 /-- The parser never panics (index / slice out of range) on any input. -/
 theorem parse_never_faults (b s : Bytes) : parse b s ≠ .fault := by
-  sorry
+  exact parse_ne_fault b s
 
 /-- The attribute-list parser accepts exactly the gap-free TLV sequences, and never panics. -/
 theorem parseAttrs_accepts_iff (b : Bytes) : (∃ as, parseAttrs b = .ok as) ↔ WellFormedTLV b := by
-  sorry
+  exact parseAttrs_ok_iff_wf b
 
 theorem parseAttrs_never_faults (b : Bytes) : parseAttrs b ≠ .fault := by
-  sorry
+  exact parseAttrs_ne_fault b
 
 /-- 2. For every accepted input, re-encoding the parsed packet reproduces exactly the first
     `Length` bytes. -/
 theorem marshal_parse (b s : Bytes) (p : Packet) (h : parse b s = .ok p) :
     marshal p = .ok (b.take (lengthField b)) := by
-  sorry
+  exact marshal_of_parse b s p h
 
 /-- Octets beyond `Length` are ignored as padding. -/
 theorem parse_ignores_padding (b pad s : Bytes) (p : Packet) (h : parse b s = .ok p) :
     parse (b ++ pad) s = .ok p ∧ parse (b.take (lengthField b)) s = .ok p := by
-  sorry
+  exact parse_padding b pad s p h
 
 /-- 3. Every packet the encoder accepts (codes 0-255) parses back to the same code, identifier,
     authenticator and attribute sequence, attributes with a type outside 0-255 being omitted. -/
@@ -46,43 +46,44 @@ theorem parse_marshal (p : Packet) (w s : Bytes) (hm : marshal p = .ok w)
     (hc : 0 ≤ p.code ∧ p.code ≤ 255) (ha : p.auth.length = 16) :
     parse w s = .ok { code := p.code, id := p.id, auth := p.auth, secret := s,
                       attrs := p.attrs.filter validType } := by
-  sorry
+  exact parse_of_marshal p w s hm hc ha
 
 /-- 4. The encoder succeeds iff every emitted value is at most 253 bytes and the total is at most
     4096 bytes; anything larger is refused with an error (never a panic, never a datagram). -/
 theorem marshal_ok_iff (p : Packet) :
     (∃ w, marshal p = .ok w) ↔
       (∀ a ∈ p.attrs, validType a = true → a.val.length ≤ 253) ∧ 20 + wireLen p.attrs ≤ 4096 := by
-  sorry
+  exact marshal_ok_iff_cond p
 
 theorem marshal_never_faults (p : Packet) : marshal p ≠ .fault := by
-  sorry
+  exact marshal_ne_fault p
 
 theorem marshal_refuses_or_errs (p : Packet)
     (h : ¬ ((∀ a ∈ p.attrs, validType a = true → a.val.length ≤ 253) ∧ 20 + wireLen p.attrs ≤ 4096)) :
     marshal p = .err := by
-  sorry
+  exact marshal_err_of_not_cond p h
 
 /-- An emitted datagram is never mis-sized: its size is 20 + the attributes' wire length, its
     Length field says so, and it is within the limit. -/
 theorem marshal_length (p : Packet) (w : Bytes) (hm : marshal p = .ok w) (ha : p.auth.length = 16) :
     w.length = 20 + wireLen p.attrs ∧ lengthField w = w.length ∧ w.length ≤ 4096 := by
-  sorry
+  exact marshal_length_cond p w hm ha
 
 /-- 5. `encodeTo` into a buffer of the reported size writes exactly the valid-type attributes in
     list order, without overrun, and the reported length equals the bytes written (shared with C09). -/
 theorem encodeTo_writes (as : Attrs) (n : Nat) (h : encodedLen as = .ok n) :
     encodeTo as (zeros n) = .ok (encodeBytes as) ∧ (encodeBytes as).length = n := by
-  sorry
+  exact encodeTo_of_encodedLen as n h
 
 theorem encodeBytes_eq (as : Attrs) :
     encodeBytes as = ((as.filter validType).map avpBytes).flatten := by
-  sorry
+  exact encodeBytes_eq_flatten as
 
 /-! Non-vacuity: concrete inputs meeting the hypotheses (tests, not theorems about all inputs). -/
 example : ∃ p, parse ([1, 7, 0, 25] ++ zeros 16 ++ [1, 5, 97, 98, 99]) [] = .ok p := by
-  sorry
+  simp [parse, lengthField, be16, zeros, List.replicate, parseAttrs, minPacketLength, maxPacketLength,
+    minAttrLength]
 example : ∃ w, marshal ⟨1, 7, zeros 16, [], [⟨1, [97]⟩, ⟨256, [1]⟩, ⟨2, []⟩]⟩ = .ok w := by
-  sorry
+  exact (marshal_ok_iff_cond _).2 (by simp [marshalCond, validType])
 
 end RV.C01
